@@ -87,10 +87,10 @@ func (f *Formatter) formatFloat(expr *ast.Float) string {
 
 func (f *Formatter) formatString(expr *ast.String) string {
 	if expr.LongString {
-		return fmt.Sprintf(`{%s"%s"%s}`, expr.Delimiter, expr.Value, expr.Delimiter)
+		return fmt.Sprintf(`{%s"%s"%s}`, expr.Delimiter, protectLineFeeds(expr.Value), expr.Delimiter)
 	}
 	// Otherwise, double-quoted string - use original token literal to preserve escapes
-	return fmt.Sprintf(`"%s"`, expr.Token.Literal)
+	return fmt.Sprintf(`"%s"`, protectLineFeeds(expr.Token.Literal))
 }
 
 func (f *Formatter) formatRTime(expr *ast.RTime) string {
